@@ -44,6 +44,30 @@ CLAIMED = {
         note="Domain: unicode lists without duplicates, renames onto absent names. ufoLib's getUnicodes scanner exercised, not modelled. Reload after external change is covered under C05's model, not here.",
         technique="Lean 4 proof (invariant induction over operation sequences) + model/implementation correspondence",
     ),
+    "C13": dict(
+        text=("Machine-checked Lean 4 theorems about an executable model of defcon's pens and glyph copying (Glyph.drawPoints/draw/"
+              "getPointPen/getPen, Contour/Component.drawPoints, GlyphObjectPointPen incl. skipConflictingIdentifiers, "
+              "GlyphObjectLoadingPointPen and the shallow-loaded form, copyDataFromGlyph, Layer.insertGlyph, decomposeComponent(s) "
+              "with DecomposeComponentPointPen/TransformPointPen, and ports of fontTools' Transform, PointToSegmentPen, "
+              "SegmentToPointPen), over an arbitrary commutative ring of coordinates: build(draw o) = o for EVERY outline with "
+              "pairwise distinct identifiers (and rejection exactly otherwise); new / shallow-loaded / fully loaded sources draw "
+              "the same stream; a copy into a fresh glyph and Layer.insertGlyph equal the source in every observable datum but the "
+              "name; the decomposing pen emits exactly the recursively flattened base outline under the composed affine maps "
+              "(composition law, termination for acyclic references), identifiers kept iff not yet in use; the segment-pen round "
+              "trip returns coordinates/types/structure up to rotation to the first on-curve point on the stated domain. Tied to "
+              "the code by differential runs (recorded point-pen and segment-pen streams, full dumps of copies, decomposition of "
+              "1-3 level nested transformed components, sources new/shallow/full, two fonts) and a direct oracle written "
+              "independently of the model. INDEPENDENCE of copies (no shared mutable state) is correspondence-only: checked on "
+              "the implementation by mutating every field of each side incl. nested lib values."),
+        design="DESIGN.md section 5 (C13)",
+        note=("Targets defcon WITH repo_fixes/C13-decompose-shallow.diff (found by this check: decomposing a component of a "
+              "shallow-loaded glyph raised AssertionError when the base glyph reuses one of the glyph's own identifiers); "
+              "theorem unfixed_decompose_shallow_violated keeps the witness. Modelled not verified: fontTools pens/Transform "
+              "(hand port, validated by the same runs), GuessSmoothPointPen's float-angle smooth guess (masked), float "
+              "arithmetic (exact on the integer/dyadic inputs used; model over Rat), lib values opaque, cyclic component "
+              "references out of domain, identifier registry after a rejected pen call is C10's concern (modelled, not judged)."),
+        technique="Lean 4 proof (structural induction over outlines / call streams / fuel, ring identities by grind) + model/implementation correspondence",
+    ),
 }
 
 NOT_YET = {}
